@@ -30,6 +30,8 @@ THEOREMS = [
     "Jinns.Rar.maskStep_prefix",
     "Jinns.Rar.active_prefixMask",
     "Jinns.Rar.proceed_iff",
+    "Jinns.Rar.fits_iff_lt_cap",
+    "Jinns.Rar.proceed_char",
     "Jinns.Rar.inv_init",
     "Jinns.Rar.inv_trigger",
     "Jinns.Rar.inv_run",
@@ -134,7 +136,8 @@ def gen_cases(rng, tier):
     cases = []
     all_sched = list(itertools.product(range(0, 6), range(1, 5)))
     if tier == "quick":
-        trig_statics = [("ode", 0, _ODE[0], None), ("ode", 0, _ODE[2], None),
+        trig_statics = [("ode", 0, _ODE[0], None), ("ode", 0, _ODE[2], None), ("ode", 0, _ODE[3], None),
+                        ("nonstatio", 2, _NONSTATIO[2][1], _NONSTATIO[2][2]),
                         ("statio", 2, None, _STATIO[0][1]), ("statio", 2, None, _STATIO[3][1]),
                         ("nonstatio", 2, _NONSTATIO[0][1], _NONSTATIO[0][2]),
                         ("nonstatio", 2, _NONSTATIO[4][1], _NONSTATIO[4][2]),
